@@ -22,7 +22,12 @@ _ALPHA = {}
 
 def alphabet(which='stack'):
     if which not in _ALPHA:
-        _ALPHA[which] = Alphabet(NAMES + ('self',), 6) if which == 'stack' else Alphabet(('arg', 'v', 'x', 'y', 'z', 'args', 'kwargs', 'zz'), 5)
+        if which == 'stack':
+            _ALPHA[which] = Alphabet(NAMES + ('self',), 6)
+        elif which == 'fwd':
+            _ALPHA[which] = Alphabet(('a', 'x', 'y', 'z', 'd1', 'args', 'kwargs', 'zz', 'self'), 6)
+        else:
+            _ALPHA[which] = Alphabet(('arg', 'v', 'x', 'y', 'z', 'args', 'kwargs', 'zz'), 5)
     return _ALPHA[which]
 
 
@@ -41,6 +46,9 @@ def deco_src():
         for kind, params in sigs.items():
             val = 'None' if kind == 'none' else d
             out.append("def D%d_%s(%s):\n    return ('D%d', %s, func(*args, **kwargs))\n" % (i, kind, params, i, val))
+    out.append("def FWD_target(x, y='dy', *, z='dz'):\n    return ('T', x, y, z)\n")
+    out.append("def F_fwd(a, *args, **kwargs):\n    return ('FW', a, FWD_target(*args, **kwargs))\n")
+    out.append("from sigtools import specifiers\n@specifiers.forwards_to_function(FWD_target)\ndef F_declared(a, *args, **kwargs):\n    return ('FD', a, FWD_target(*args, **kwargs))\n")
     out.append("def DF_pos(func, *args, **kwargs):\n    return ('DFp', func('c0', *args, **kwargs))\n")
     out.append("def DF_kw(func, *args, **kwargs):\n    return ('DFk', func(*args, y='cy', **kwargs))\n")
     fam = {
@@ -93,10 +101,10 @@ def outcome_eq(a, b):
     return callsem.same_outcome(a, b)
 
 
-def check_object(g, comp, shapes_in, expect_wrappers, st, case, base, tag):
+def check_object(g, comp, shapes_in, expect_wrappers, st, case, base, tag, which_alpha='stack'):
     """g: the wrapped callable as the user calls it; comp: hand-written composition; shapes_in: input shapes for the
     non-colliding clause."""
-    alpha = alphabet()
+    alpha = alphabet(which_alpha)
     try:
         ssig = sigtools.signature(g)
         isig = inspect.signature(g)
@@ -244,6 +252,27 @@ def eval_forwarding(ns, which, fshape, placement, st):
         check_object(inst.m, compose([D], inst.plain), [dshape, fshape], [D], st, case, base, 'method:bound')
 
 
+def eval_forwarding_decorated(ns, api, kind, which, placement, st):
+    """The decorated function itself forwards its stars (discovered or declared): its effective signature is only
+    known to sigtools."""
+    D = ns['D1_' + kind]
+    f = ns[which]
+    eff = (('a', POK, False), ('x', POK, False), ('y', POK, True), ('z', KWO, True))
+    case = {'api': api + '+forwarding', 'kinds': [kind], 'which': which, 'placement': placement}
+    base = {'api': api, 'decorators': [D.__name__ + str(inspect.signature(D))],
+            'decorated': '%s%s forwarding to FWD_target(x, y=, *, z=)' % (which, inspect.signature(f, follow_wrapped=False)),
+            'placement': placement}
+    st.inc('states')
+    g = build(api, D, f)
+    comp = compose([D], f)
+    dshape = deco_shape(1, kind)
+    if placement == 'function':
+        check_object(g, comp, [dshape, eff], [D], st, case, base, 'function', 'fwd')
+    else:
+        holder = type('H', (object,), {'m': staticmethod(g)})
+        check_object(holder().m, comp, [dshape, eff], [D], st, case, base, 'staticmethod:instance', 'fwd')
+
+
 def eval_combination(ns, fam, combo, st):
     funcs = [ns['CF_' + nm] for nm in combo]
     case = {'api': 'Combination', 'functions': list(combo)}
@@ -314,6 +343,7 @@ def work_items(tier):
         for kinds in itertools.product(deep, repeat=3):
             items.append(('stackreps3', api, kinds, 'function', 0, 0))
     items.append(('forwarding', None, None, None, 0, 0))
+    items.append(('fwd_decorated', None, None, None, 0, 0))
     items.append(('combination', None, None, None, 0, 0))
     return items
 
@@ -353,6 +383,12 @@ def shard(tier, sh):
                     if 'y' in space.kwpass(fshape):
                         for placement in ('function', 'method'):
                             eval_forwarding(ns, 'kw', fshape, placement, st)
+            elif kind == 'fwd_decorated':
+                for api in ('decorator', 'wrapper_decorator'):
+                    for k in OWN:
+                        for which in ('F_fwd', 'F_declared'):
+                            for placement in ('function', 'staticmethod'):
+                                eval_forwarding_decorated(ns, api, k, which, placement, st)
             elif kind == 'combination':
                 for r in (1, 2, 3):
                     for combo in itertools.product(fam, repeat=r):
@@ -403,6 +439,8 @@ def replay(art):
         ns = batch.index
         if c['api'] == 'Combination':
             eval_combination(ns, fam, tuple(c['functions']), st)
+        elif c['api'].endswith('+forwarding'):
+            eval_forwarding_decorated(ns, c['api'][:-len('+forwarding')], c['kinds'][0], c['which'], c['placement'], st)
         elif c['api'] == 'wrapper_decorator+args':
             eval_forwarding(ns, c['which'], space.from_json(c['f']), c['placement'], st)
         else:
